@@ -212,9 +212,10 @@ structure Cli (P : Type) where
   stored : Option (Stored P)
   connected : Bool          -- `sio.connected`
   task : Bool               -- `bool(self._reconnect_task)`
+  live : List Ns            -- keys of `self.namespaces`: accepted by the server and not ended since
   deriving Repr
 
-def Cli.init {P : Type} (cfg : Cfg) : Cli P := ⟨cfg, none, false, false⟩
+def Cli.init {P : Type} (cfg : Cfg) : Cli P := ⟨cfg, none, false, false, []⟩
 
 /-- script of the effort a loss may start -/
 structure Script where
@@ -226,37 +227,70 @@ structure Script where
 inductive Input (P : Type) where
   | connect (s : Stored P)            -- application `connect(...)`, the server accepts everything
   | lose (c : Cause) (sc : Script)    -- the connection ends for this cause
+  | connectNoWait (s : Stored P) (acc : List Bool)
+      -- application `connect(..., wait=False)`: returns as soon as the transport is up; the server
+      -- accepts namespace `i` iff `acc[i]` (CONNECT_ERROR otherwise), the client stays up on the rest
+  | nsEnd (n : Ns)                    -- the server ends ONE namespace (DISCONNECT packet), others stay
 
-/-- One input.  `none` = the input is not applicable (connect while connected, loss while not). -/
+/-- the stored namespaces the server accepted -/
+def acceptedNss (nss : List Ns) (acc : List Bool) : List Ns :=
+  ((enum 0 nss).filter (fun p => accepted acc p.1)).map (fun p => p.2)
+
+/-- is the default namespace among the refused ones?  (`_handle_error('/')` empties the whole
+    table - C08's known finding `root-refused-nowait-stale-namespaces`, outside this model) -/
+def rootRefused (nss : List Ns) (acc : List Bool) : Bool :=
+  (enum 0 nss).any (fun p => p.2 == ['/'] && !accepted acc p.1)
+
+/-- One input.  `none` = the input is not applicable (connect while connected, loss while not,
+    ending a namespace that is not connected or is the last one - that is a `lose .serverDisconnect`).
+    What `connect()` stored (`stored`) is written by `connect` inputs ONLY: neither the server ending
+    or refusing a namespace nor a loss changes it, and every attempt of an effort carries it. -/
 def step {P : Type} (c : Cli P) : Input P → Option (Cli P × List (Ev P))
   | .connect s =>
     if c.connected then none
-    else some ({ c with stored := some s, connected := true },
+    else some ({ c with stored := some s, connected := true, live := s.nss },
                .attempt s :: s.nss.map (fun n => .handler .connect n))
+  | .connectNoWait s acc =>
+    if c.connected || rootRefused s.nss acc then none
+    else some ({ c with stored := some s, connected := true, live := acceptedNss s.nss acc },
+               .attempt s :: (enum 0 s.nss).map (fun (i, n) =>
+                 .handler (if accepted acc i then .connect else .connectError) n))
+  | .nsEnd n =>
+    if c.connected && c.live.contains n && decide (1 < c.live.length) then
+      -- `_handle_disconnect`: both handlers, the namespace leaves `self.namespaces`; the transport
+      -- stays up, engine.io is not involved, nothing is decided about reconnecting
+      some ({ c with live := c.live.erase n },
+            [.handler (.disconnect .serverDisconnect) n, .handler .disconnectFinal n])
+    else none
   | .lose cause sc =>
     match c.connected, c.stored with
     | true, some s =>
       let st := eioStateDuring cause
       let will := willReconnect c.cfg st
       let start := startsEffort c.cfg st c.task
-      let hs : List (Ev P) := s.nss.flatMap (fun n =>
+      -- the handlers run for the namespaces connected NOW (`self.namespaces`) …
+      let hs : List (Ev P) := c.live.flatMap (fun n =>
         .handler (.disconnect (reasonOf cause)) n ::
           (if will then [] else [.handler .disconnectFinal n]))
       -- server DISCONNECT packets are handled namespace by namespace before engine.io is told;
       -- the handler order is the same
       if start then
+        -- … the effort uses what `connect()` stored
         let (r, evs) := effort c.cfg s sc.outs sc.rands sc.abortAt sc.fuel
         let c' : Cli P := { c with connected := r.final == .connected,
-                                   task := r.final != .connected }
+                                   task := r.final != .connected,
+                                   live := if r.final == .connected then s.nss else [] }
         some (c', hs ++ [.notified st true] ++ evs)
       else
-        some ({ c with connected := false }, hs ++ [.notified st false])
+        some ({ c with connected := false, live := [] }, hs ++ [.notified st false])
     | _, _ => none
 
 /-- Region of the known finding `stale-reconnect-task`: this input starts an effort that does not
     end connected (give-up, abort, or still running when the observation stops). -/
 def effortFailed {P : Type} (c : Cli P) : Input P → Bool
   | .connect _ => false
+  | .connectNoWait _ _ => false
+  | .nsEnd _ => false
   | .lose cause sc =>
     match c.connected, c.stored with
     | true, some s =>
